@@ -267,6 +267,17 @@ def load_once(cls, spec, reg, doc, use_json=False, v1=False):
             out['lax_conf'] = rt.conforms(r, spec, reg, lax=lax)
             out['lax_rules'] = sorted(x for x in lax if not x.startswith('@'))
     out['input_same'] = rt.show(j, reg) == rt.show(before, reg)
+    # the SAME document object loaded a second time must behave as the first time
+    try:
+        r2 = cls.from_json(json.dumps(j)) if use_json else fromdict(cls, j)
+        second = ('show', rt.show(r2, reg))
+    except BaseException as e:
+        second = ('err', type(e).__name__)
+    first = ('show', out['show']) if 'show' in out else ('err', out.get('err'))
+    out['second_same'] = (second == first)
+    if not out['second_same']:
+        out['second'] = list(second)
+    out['input_same'] = out['input_same'] and rt.show(j, reg) == rt.show(before, reg)
     return out
 
 
@@ -285,7 +296,9 @@ def run_case(c):
             LoadMeta(auto_assign_tags=True).bind_to(cls)
         LoadMeta(v1=True, v1_key_case='AUTO', **({'auto_assign_tags': True} if auto else {})).bind_to(cls1)
         x = rt.build_value(c['value'], reg)
-        d = asdict(x)
+        # history axis: "load first" - the well-typed document is written by the independent reference encoder
+        # (exact field names as keys), so that NO dump of these classes precedes the first load
+        d = rt.ref_encode(x, {'xf': 'NONE'}, reg) if c.get('load_first') else asdict(x)
         try:
             base = json.loads(json.dumps(d))
         except (TypeError, ValueError):
